@@ -22,7 +22,7 @@ def _proj_fields(proj):
         if e == "*":
             continue
         if isinstance(e, list) and e[0] == "f":
-            out.append(e[2])
+            out.append(e[2] if e[2] is not None else str(e[1]))
         else:
             return None
     return tuple(out)
@@ -69,7 +69,31 @@ def discr_root(body, switch_block):
     if fs is None:
         return None
     r, path = _root_of(body, p[0])
-    return (r, path + fs), ds[0][3][2]
+    r, path = _through_tuples(body, r, path + fs)
+    return (r, path), ds[0][3][2]
+
+
+def _through_tuples(body, r, path, depth=0):
+    """(tuple local, ('0', ...)) -> root of the tuple's operand 0"""
+    while depth < 6 and isinstance(r, int) and path and path[0].isdigit():
+        ds = body.defs().get(r, [])
+        if len(ds) != 1 or ds[0][0] != "s" or ds[0][3][0] != "agg" or ds[0][3][1][0] != "tuple":
+            break
+        ops = ds[0][3][2]
+        i = int(path[0])
+        if i >= len(ops):
+            break
+        l = op_local(ops[i])
+        if l is None:
+            break
+        pl = op_place(ops[i])
+        fs = _proj_fields(pl[1])
+        if fs is None:
+            break
+        r2, p2 = _root_of(body, l)
+        r, path = r2, p2 + fs + path[1:]
+        depth += 1
+    return r, path
 
 
 def reach_under(body, assume):
@@ -96,3 +120,144 @@ def reach_under(body, assume):
 def variants_reaching(body, param_local, variants, block):
     """names of the variants of the parameter under which `block` stays reachable"""
     return [name for name, d in variants if block in reach_under(body, {param_local: d})]
+
+
+# ----------------------------------------------------------------------------------------------
+# three-valued evaluation of boolean predicates over an assumed enum variant
+
+def _assumed(assume, key):
+    if key in assume:
+        return assume[key]
+    if isinstance(key, tuple) and key[1] == () and key[0] in assume:
+        return assume[key[0]]
+    return None
+
+
+def eval_bool(F, fid, variant_discr, depth=0, cache=None):
+    """possible return values of the predicate `fid(&DataType) -> bool` when its first parameter is the
+    given variant: subset of {True, False, None(unknown)}"""
+    cache = cache if cache is not None else {}
+    ck = (fid, variant_discr)
+    if ck in cache:
+        return cache[ck]
+    cache[ck] = {None}
+    fn = F.resolve(fid)
+    if fn is None or "mir" not in fn or depth > 6:
+        return {None}
+    body = Body(fn)
+    assume = {1: variant_discr}
+    known = {}
+    # constants and resolvable predicate calls
+    from .mirlib import callee
+    from .flow import norm
+    for b in range(body.n):
+        t = body.term(b)
+        if t["k"] == "call" and not t["dest"][1] and t.get("rt") == "bool" and t["args"]:
+            l = op_local(t["args"][0])
+            if l is not None:
+                r, path = _root_of(body, l)
+                if _assumed(assume, (r, path)) is not None or (path == () and r in assume):
+                    cn = callee(t)
+                    res = eval_bool(F, cn, variant_discr, depth + 1, cache)
+                    if len(res) == 1 and None not in res:
+                        known[t["dest"][0]] = next(iter(res))
+    # flow-sensitive constant propagation of bool locals along the pruned CFG
+    state_in = {0: {}}
+    work = deque([0])
+    rets = set()
+    visits = 0
+    while work and visits < 20000:
+        visits += 1
+        b = work.popleft()
+        st = dict(state_in[b])
+        for s_ in body.stmts(b):
+            if s_[0] != "a" or s_[1][1]:
+                continue
+            dst = s_[1][0]
+            rv = s_[2]
+            val = None
+            if rv[0] == "use" and rv[1][0] == "k" and rv[1][1] in ("true", "false"):
+                val = rv[1][1] == "true"
+            elif rv[0] == "use" and op_local(rv[1]) is not None and not op_place(rv[1])[1] and op_local(rv[1]) in st:
+                val = st[op_local(rv[1])]
+            elif rv[0] == "un" and rv[1] == "Not" and op_local(rv[2]) in st:
+                val = not st[op_local(rv[2])]
+            if val is None:
+                st.pop(dst, None)
+            else:
+                st[dst] = val
+        t = body.term(b)
+        succ = body.succ(b)
+        if t["k"] == "call" and not t["dest"][1]:
+            d = t["dest"][0]
+            if d in known:
+                st[d] = known[d]
+            else:
+                st.pop(d, None)
+        elif t["k"] == "switch":
+            dr = discr_root(body, b)
+            bs = body.bool_switch(b)
+            if dr and _assumed(assume, dr[0]) is not None:
+                want = _assumed(assume, dr[0])
+                vals = dict(t["ts"])
+                succ = [vals[want]] if want in vals else [t["else"]]
+            elif bs and op_local(bs[0]) in st:
+                succ = [bs[1]] if st[op_local(bs[0])] else [bs[2]]
+        elif t["k"] == "return":
+            rets.add(st.get(0, None))
+        for x in succ:
+            if x not in state_in:
+                state_in[x] = dict(st)
+                work.append(x)
+            else:
+                old = state_in[x]
+                new_ = {k: v for k, v in old.items() if st.get(k, "?") == v}
+                if new_ != old:
+                    state_in[x] = new_
+                    work.append(x)
+    out = rets
+    cache[ck] = out or {None}
+    return cache[ck]
+
+
+def supported_under(body, assume):
+    """Does the dispatch on the assumed value route to an implementation?  True if a successful exit is
+    reachable *downstream of a switch resolved by the assumption*; False if only rejecting exits are;
+    None if no switch was resolved (the function does not dispatch on the assumed roots)."""
+    from . import flow
+    seen = {0}
+    dq = deque([0])
+    chosen = []
+    while dq:
+        b = dq.popleft()
+        t = body.term(b)
+        succ = body.succ(b)
+        if t["k"] == "switch":
+            dr = discr_root(body, b)
+            if dr and _assumed(assume, dr[0]) is not None:
+                want = _assumed(assume, dr[0])
+                vals = dict(t["ts"])
+                succ = [vals[want]] if want in vals else [t["else"]]
+                chosen.append((b, succ[0]))
+        for s in succ:
+            if s not in seen:
+                seen.add(s)
+                dq.append(s)
+    if not chosen:
+        return None
+    oks = set(flow.ok_exits(body)) & seen
+    for (b, tgt) in chosen:
+        down = set()
+        dq = deque([tgt])
+        down.add(tgt)
+        while dq:
+            x = dq.popleft()
+            for s in body.succ(x):
+                if s in seen and s not in down:
+                    # respect the pruning: only follow edges that reach_under kept
+                    down.add(s)
+                    dq.append(s)
+        if oks & down:
+            # make sure this is not merely the shared return block: an ok exit is an assignment block
+            return True
+    return False
